@@ -10,24 +10,31 @@ import SaModel.Props.C02
 import SaModel.Props.C08
 import SaModel.Props.C13
 import SaModel.Lemmas.C04Norm
+import SaModel.Lemmas.C04FromType
+import SaModel.Lemmas.C04Excl
+import SaModel.Lemmas.C04ScopeLv
+import SaModel.Lemmas.C04SafeDT
+import SaModel.Lemmas.C04Physical
 /-
 C04 — round trip through a type-traced schema is the identity.
 
-The end-to-end statement composes four facts.  Three belong to other models and enter as *hypotheses stated over
-their interfaces* (so the theorem can be discharged when those models are merged); the fourth is proved here.
+The end-to-end statement composes four facts about the REAL model functions (no interface hypothesis is left):
 
-  (H8, C08)  the tracer returns the documented mapping:   fromType o ty = ok fields,  mappingRoot o ty = some fields
-  (H1, C01)  the builder refines the documented mapping:  toMarrow ext fields rows = ok arrs  and row i of the
-             arrays decodes (Arrow reading rules, `Spec.decode`) to `interpRow ext fields rows[i]`
-  (H2, C02)  the reader returns the cast of the decoded content: if row i decodes to `lvs[i]` and reading each
-             `lvs[i]` at `ty` gives `vals[i]`, then `readTyped ty fields arrs = ok vals`
-  (Hinv)     **the Rust → Arrow mapping is injective up to the documented normalisation** (proved here):
-                 interp (mapping ty) (ser ty v) = ok (lv ty v)          `interp_ser`   (SaModel/Lemmas/C04Interp.lean)
+  (H8, C08)  the tracer returns the documented mapping:   `C04_fromType_mapping` (every type, enums included), and it
+             succeeds on every walkable, mappable type within the pass budget: `C04_fromType_ok`
+  (H1, C01)  the builder refines the documented mapping:  `Props.C01.C01_build_decode` + `Props.C03.C03_wf`, their schema
+             side conditions proved for every traced schema (`mapping_side`), `Safe` as the decidable condition `safeFs`
+  (H2, C02)  the reader returns the cast of the decoded content: `Props.C02.read_typed_decode` with `cast_lvO`,
+             `newFields_of_wf`, `utf8Ok_lvO`
+  (Hinv)     **the Rust → Arrow mapping is injective up to the documented normalisation**:
+                 interp (mapping ty) (ser ty v) = ok (lvO o ty v)      `interp_serO`  (SaModel/Lemmas/C04Interp.lean)
                  unser ty (lv ty v)            = some (norm ty v)      `unser_lv`     (SaModel/Lemmas/C04Unser.lean)
-             hence  lv ty v = lv ty w → norm ty v = norm ty w.
 
-`norm` is the identity except where `Some(v)` is stored as a null (`Some(None)`, `Some(())`): `norm_eq_self`.
-The second documented exclusion (`None` at a position traced to a Union) is the hypothesis `noneAtUnion … = false`.
+`lvO o` is the option-dependent logical value (an enum without data is stored as its variant NAME under
+`enums_without_data_as_strings`; otherwise `lvO o = lv`).  `norm` is the identity except where `Some(v)` is stored as a null
+(`Some(None)`, `Some(())`): `norm_eq_self`.  The documented exclusion (`None` at a position traced to a Union) is `inScopeU`,
+proved equal to the driver's run-time predicate `noneAtUnion … = false` (`C04_inScopeU_iff`).
+The acceptance half and the end-to-end theorems are in Props/C04Accept.lean.
 -/
 namespace SaModel.Props.C04
 open SaModel SaModel.Build SaModel.Spec SaModel.Roundtrip
@@ -51,43 +58,72 @@ theorem C04_mapping_injective (t : Ty) (v w : Val) (hv : wt t v = true) (hw : wt
 
 /-! ### the first half of the injectivity lemma, and the composition with it discharged -/
 
-/-- **`Spec.interp ∘ ser = lv` at the traced field**, for every option set, on the grammar `fragE`: scalars, `()`, unit
-structs, Option, newtype structs, Vec, maps, structs (fields matched by name, `skip_serializing_if` fields left out),
-tuples / tuple structs / arrays (positional names "0", "1", … are distinct: `Nat.repr` is injective) and enums traced to
-a Union (unit / newtype / tuple / struct variants), under the documented exclusions in type-directed form `inScope`: no
-`None` (or skipped field) at a position traced to a Union, no value of a data-less enum stored as a string.
-`_partial`: data-less enums under `enums_without_data_as_strings` (Dictionary column: the logical value is the variant
-NAME there, `lv` describes the Union form) are excluded by `inScope`. -/
-theorem C04_interp_ser_partial (ext : Ext) (o : TraceOpts) (t : Ty) (v : Val) (dt : DataType) (nb : Bool) (md : Metadata)
+/-- **`Spec.interp ∘ ser = lvO o` at the traced field**, for every option set, on the whole grammar `fragE`: scalars, `()`,
+unit structs, Option, newtype structs, Vec, maps, structs (fields matched by name, `skip_serializing_if` fields left out),
+tuples / tuple structs / arrays (positional names "0", "1", … are distinct: `Nat.repr` is injective) and enums — traced to
+a Union (unit / newtype / tuple / struct variants) or, for an enum without data under `enums_without_data_as_strings`, to
+a Dictionary column holding the variant NAME (`lvO o` is the option-dependent logical value; `lvO o = lv` where no such
+enum occurs).  Exclusions `inScopeO o t v`: the documented one — no `None` (or skipped field) at a position traced to a
+Union (`inScopeU`, = the driver's `noneAtUnion`, `C04_inScopeU_iff`) — and `strOK`: a value of a string-stored enum is a
+unit variant (vacuous unless a data-less enum has a newtype variant around a data-less type, `enum E { A, B(()) }`, which
+the tracer counts as "without data" and the string builder refuses: crate defect, notes/C04.md). -/
+theorem C04_interp_ser (ext : Ext) (o : TraceOpts) (t : Ty) (v : Val) (dt : DataType) (nb : Bool) (md : Metadata)
+    (hf : fragE t = true) (hw : wt t v = true) (hs : inScopeO o t v = true) (hm : mappingDT o t = (dt, nb, md)) :
+    interpDT ext dt nb md (ser t v) = .ok (lvO o t v) := by
+  simp only [inScopeO, Bool.and_eq_true] at hs
+  exact interp_serO ext o t v nb dt nb md hf hw hs.1 hs.2 hm (fun h => h)
+
+/-- the Union form: under the stronger exclusion `inScope` (no value of a string-stored enum at all) the logical value is
+the option-independent `lv` -/
+theorem C04_interp_ser_union (ext : Ext) (o : TraceOpts) (t : Ty) (v : Val) (dt : DataType) (nb : Bool) (md : Metadata)
     (hf : fragE t = true) (hw : wt t v = true) (hs : inScope o t v = true) (hm : mappingDT o t = (dt, nb, md)) :
-    interpDT ext dt nb md (ser t v) = .ok (lv t v) :=
-  interp_serE ext o t v nb dt nb md hf hw hs hm (fun h => h)
+    interpDT ext dt nb md (ser t v) = .ok (lv t v) := by
+  obtain ⟨h1, h2, h3⟩ := scope_of_inScope o t v hs
+  rw [← h3]
+  exact interp_serO ext o t v nb dt nb md hf hw h1 h2 hm (fun h => h)
 
 /-- the exclusions are vacuous for enum-free types of the grammar (`frag`) -/
-theorem C04_frag_inScope (o : TraceOpts) (t : Ty) (v : Val) (hf : frag t = true) : fragE t = true ∧ inScope o t v = true :=
-  ⟨frag_fragE t hf, frag_inScope o t v hf⟩
+theorem C04_frag_inScope (o : TraceOpts) (t : Ty) (v : Val) (hf : frag t = true) : fragE t = true ∧ inScopeO o t v = true :=
+  ⟨frag_fragE t hf, frag_inScopeO o t v hf⟩
+
+/-- **the type-directed exclusion is the driver's run-time exclusion**: `inScopeU o t v` (no `None` / skipped field at a
+position traced to a Union) holds exactly when `noneAtUnion` — what `lean/Driver/Suites/Roundtrip.lean` decides on the
+traced schema and the recorded serialization to mark a case `excl:option-union-none` — does not fire -/
+theorem C04_inScopeU_iff (o : TraceOpts) (t : Ty) (v : Val) (hf : fragE t = true) (hw : wt t v = true) :
+    inScopeU o t v = !noneAtUnion (mappingDT o t).1 (ser t v) :=
+  inScopeU_iff o t v hf hw
 
 theorem Fields.ofList_toList : ∀ (l : Fields), Fields.ofList l.toList = l
   | .nil => rfl
   | .cons f r => by simp [Fields.toList, Fields.ofList, Fields.ofList_toList r]
 
+/-- at the root: the same exclusion against the schema `from_type` returns, as the driver computes it (`noneAtUnionRow`) -/
+theorem C04_inScopeU_row (o : TraceOpts) (n : String) (fs : TFields) (v : Val) (fields : List Field)
+    (hf : fragE (.struct n fs) = true) (hw : wt (.struct n fs) v = true) (hroot : mappingRoot o (.struct n fs) = some fields) :
+    inScopeU o (.struct n fs) v = !noneAtUnionRow fields (ser (.struct n fs) v) := by
+  have hfields : fields = (mappingFields o fs).toList := by
+    simp [mappingRoot, mappingDT] at hroot; exact hroot.symm
+  subst hfields
+  rw [C04_inScopeU_iff o _ v hf hw]
+  simp [noneAtUnionRow, Fields.ofList_toList, mappingDT]
+
 /-- at the root: a record type of the grammar (enums included) against the schema `from_type` returns for it -/
-theorem C04_interpRow_partial (ext : Ext) (o : TraceOpts) (n : String) (fs : TFields) (v : Val) (fields : List Field)
-    (hf : fragE (.struct n fs) = true) (hw : wt (.struct n fs) v = true) (hs : inScope o (.struct n fs) v = true)
+theorem C04_interpRow (ext : Ext) (o : TraceOpts) (n : String) (fs : TFields) (v : Val) (fields : List Field)
+    (hf : fragE (.struct n fs) = true) (hw : wt (.struct n fs) v = true) (hs : inScopeO o (.struct n fs) v = true)
     (hroot : mappingRoot o (.struct n fs) = some fields) :
-    interpRow ext fields (ser (.struct n fs) v) = .ok (lv (.struct n fs) v) := by
+    interpRow ext fields (ser (.struct n fs) v) = .ok (lvO o (.struct n fs) v) := by
   have hfields : fields = (mappingFields o fs).toList := by
     simp [mappingRoot, mappingDT] at hroot; exact hroot.symm
   subst hfields
   unfold interpRow
   rw [Fields.ofList_toList]
-  exact interp_serE ext o (.struct n fs) v false _ false [] hf hw hs (by simp [mappingDT]) (fun h => h)
+  exact C04_interp_ser ext o (.struct n fs) v _ false [] hf hw hs (by simp [mappingDT])
 
 /-! ### the round trip through the real models -/
 
-/-- the tracer's result is the documented mapping of C04: `Props.C08.C08_from_type` (∀ types, ∀ options) composed with
-`fromTypeSpec_eq` (the two statements of the documentation agree) -/
-theorem C04_fromType_mapping (c : Trace.Code) (O : Trace.Options) (h0 : O.overwrites = []) (t : Ty) (hn : noEnum t = true)
+/-- the tracer's result is the documented mapping of C04, for EVERY type (enums included): `Props.C08.C08_from_type`
+(∀ types, ∀ options) composed with `fromTypeSpec_eq` (the two statements of the documentation agree) -/
+theorem C04_fromType_mapping (c : Trace.Code) (O : Trace.Options) (h0 : O.overwrites = []) (t : Ty)
     (fields : List Field) (h : Trace.fromType c O (toTraceTy t) = .ok fields) :
     mappingRoot (viewOpts O) t = some fields := by
   have hag := Props.C08.C08_from_type c O (toTraceTy t)
@@ -97,19 +133,49 @@ theorem C04_fromType_mapping (c : Trace.Code) (O : Trace.Options) (h0 : O.overwr
     rw [hs] at hag
     have : fields = fields' := hag
     subst this
-    exact fromTypeSpec_eq O h0 t hn fields hs
+    exact fromTypeSpec_eq O h0 t fields hs
   | error e => rw [hs] at hag; exact absurd hag (by simp [Lemmas.C08.Agree])
+
+/-- the fields `from_type` returned for a record type are the documented mapping of its fields -/
+theorem C04_fromType_fields (c : Trace.Code) (O : Trace.Options) (h0 : O.overwrites = []) (n : String) (fs : TFields)
+    (fields : List Field) (h : Trace.fromType c O (toTraceTy (.struct n fs)) = .ok fields) :
+    fields = (mappingFields (viewOpts O) fs).toList := by
+  have hroot := C04_fromType_mapping c O h0 _ fields h
+  simp [mappingRoot, mappingDT] at hroot; exact hroot.symm
+
+/-- **`from_type` succeeds** on every record type that can be walked (`Spec.walkable`: no container deeper than 20
+levels, no map under `map_as_struct`, no enum without variants) and mapped (`mappable`: the documented refusals — a
+Null-typed position only with `allow_null_fields`, a data-less enum only with `enums_without_data_as_strings` or
+`allow_null_fields`, at most 128 variants), within the pass budget (one pass per enum variant, `Spec.passes`), and returns
+the documented mapping.  From C08 (`C08_from_type`) and `mapping_ok`. -/
+theorem C04_fromType_ok (c : Trace.Code) (O : Trace.Options) (h0 : O.overwrites = []) (n : String) (fs : TFields)
+    (hw : Trace.Spec.walkable O "$" (toTraceTy (.struct n fs)) = true)
+    (hm : mappable (viewOpts O) (.struct n fs) = true)
+    (hb : Trace.Spec.passes (toTraceTy (.struct n fs)) ≤ O.from_type_budget) :
+    Trace.fromType c O (toTraceTy (.struct n fs)) = .ok (mappingFields (viewOpts O) fs).toList :=
+  fromType_ok c O h0 n fs hw hm hb
+
+/-- **C01's `Safe` from a decidable condition on the traced schema** (`safeFs`: no dictionary with non-nullable keys
+below a nullable struct, through struct children and the first variant of a union; `Lemmas/C04SafeDT.lean`) -/
+theorem C04_safe_traced (o : TraceOpts) (fs : TFields) (fields : List Field) (hfields : fields = (mappingFields o fs).toList)
+    (hs : safeFs (mappingFields o fs) = true) : ∀ root0, newRoot fields = .ok root0 → Safe root0 := by
+  have hside := sideFs_toList (mappingFields o fs) (mappingFields_side o fs)
+  rw [← hfields] at hside
+  exact safe_of_schema fields (List.all_eq_true.mpr fun f hf => (hside f hf).2)
+    (by rw [hfields, Fields.ofList_toList]; exact hs)
 
 /-- the core of the round trip: `from_marrow`'s checks pass with record count `vs.length`, the root reader is
 constructed, and the typed read of every index returns the normalised value (`C04_roundtrip_partial`,
 `C04_roundtrip_bulk_partial` are its two front ends) -/
 theorem C04_roundtrip_core (c : Trace.Code) (O : Trace.Options) (ext : Ext) (n : String) (fs : TFields) (vs : List Val)
     (fields : List Field) (arrs : List Arr)
-    (h0 : O.overwrites = []) (hfrag : frag (.struct n fs) = true) (hne : fs ≠ .nil)
+    (h0 : O.overwrites = []) (hfrag : fragE (.struct n fs) = true) (hne : fs ≠ .nil)
     (hwt : ∀ v ∈ vs, wt (.struct n fs) v = true)
+    (hsc : ∀ v ∈ vs, inScopeO (viewOpts O) (.struct n fs) v = true)
     (hext : Lemmas.C03.ExtOK ext)
     (hsafe : ∀ root0, newRoot fields = .ok root0 → Safe root0)
-    (hphys : ∀ a ∈ arrs, Read.physical a = true)
+    (hphys : Spec.wfFields (mappingFields (viewOpts O) fs) (zipCols fields arrs) vs.length = true →
+      Read.physicalFields (zipCols fields arrs) = true)
     (hft : Trace.fromType c O (toTraceTy (.struct n fs)) = .ok fields)
     (htm : toMarrow ext fields (vs.map (ser (.struct n fs))) = .ok arrs) :
     Access.new true fields.length (arrs.map Read.vlen) = .ok vs.length ∧
@@ -119,13 +185,11 @@ theorem C04_roundtrip_core (c : Trace.Code) (O : Trace.Options) (ext : Ext) (n :
         .ok (dvalOf (.struct n fs) (norm (.struct n fs) vs[i])) := by
   let t : Ty := .struct n fs
   let o := viewOpts O
-  have hn : noEnum t = true := frag_noEnum t hfrag
-  have hroot : mappingRoot o t = some fields := C04_fromType_mapping c O h0 t hn fields hft
-  have hfields : fields = (mappingFields o fs).toList := by
-    simp [t, mappingRoot, mappingDT] at hroot; exact hroot.symm
+  have hroot : mappingRoot o t = some fields := C04_fromType_mapping c O h0 t fields hft
+  have hfields : fields = (mappingFields o fs).toList := C04_fromType_fields c O h0 n fs fields hft
   have hofl : Fields.ofList fields = mappingFields o fs := by rw [hfields]; exact Fields.ofList_toList _
   -- side conditions of C01 / C03
-  have hside := sideFs_toList (mappingFields o fs) (mappingFields_side o fs (by simpa [t, noEnum] using hn))
+  have hside := sideFs_toList (mappingFields o fs) (mappingFields_side o fs)
   rw [← hfields] at hside
   have hser : ∀ x ∈ vs.map (ser t), Build.noRaw x = true ∧ Lemmas.C03.SValOK x := by
     intro x hx
@@ -144,7 +208,7 @@ theorem C04_roundtrip_core (c : Trace.Code) (O : Trace.Options) (ext : Ext) (n :
     exact zip_wf vs.length fields arrs hlen (fun j f a hf ha => by
       have := hwf j f a hf ha; rw [hrl] at this; exact this)
   have hnewF : Read.newFields Read.Fixes.all (zipCols fields arrs) = .ok () :=
-    newFields_of_wf o fs _ _ (by simpa [t, noEnum] using hn) hcols
+    newFields_of_wf o fs _ _ hcols
   have hnonempty : arrs ≠ [] := by
     intro he
     rw [he] at hlen
@@ -169,31 +233,35 @@ theorem C04_roundtrip_core (c : Trace.Code) (O : Trace.Options) (ext : Ext) (n :
     simpa [rootArr, Read.new] using hnewF
   refine ⟨hacc, hnew, ?_⟩
   intro i hi
+  have hsi := hsc _ (List.getElem_mem hi)
   -- the decoded record is the logical value of the input
-  have hinterp := C04_interpRow_partial ext o n fs vs[i] fields (frag_fragE _ hfrag) (hwt _ (List.getElem_mem hi))
-    (frag_inScope o _ _ hfrag) hroot
+  have hinterp := C04_interpRow ext o n fs vs[i] fields hfrag (hwt _ (List.getElem_mem hi)) hsi hroot
   have hrow := hc4 i (by rw [hrl]; exact hi)
   rw [List.getElem_map, hinterp] at hrow
-  have hdec : Spec.decodeAt (rootArr fields arrs vs.length) i = .ok (lv t vs[i]) := by
+  have hdec : Spec.decodeAt (rootArr fields arrs vs.length) i = .ok (lvO o t vs[i]) := by
     have hz := zip_decode i fields arrs cols hc1 hc2 (fun c' hc' => by rw [hc3 c' hc', hrl]; exact hi)
     simp only [rootArr, Spec.decodeAt, hi, if_true, Spec.withValidity, Spec.isValid, hz, bind, Except.bind, pure, Except.pure]
     simp only [Except.ok.injEq] at hrow
     simpa using hrow.symm
   have hwfroot : Spec.wf (.struct (mappingFields o fs)) false (rootArr fields arrs vs.length) = true := by
     simp [rootArr, Spec.wf, Spec.validityOk, hcols]
-  have hcast := cast_lv o t vs[i] (rootArr fields arrs vs.length) (.struct (mappingFields o fs)) false [] false hfrag
-    (hwt _ (List.getElem_mem hi)) (by simp [t, mappingDT]) hwfroot
-  exact Props.C02.read_typed_decode (toTarget t) (rootArr fields arrs vs.length) i (lv t vs[i]) _ hdec
+  simp only [inScopeO, Bool.and_eq_true] at hsi
+  have hcast := cast_lvO o t vs[i] (rootArr fields arrs vs.length) (.struct (mappingFields o fs)) false [] false hfrag
+    (hwt _ (List.getElem_mem hi)) hsi.1 hsi.2 (by simp [t, mappingDT]) hwfroot
+  exact Props.C02.read_typed_decode (toTarget t) (rootArr fields arrs vs.length) i (lvO o t vs[i]) _ hdec
     (by simpa [rootArr, Read.new] using hnewF)
-    (by simpa [rootArr, Read.physical] using zip_physical fields arrs hphys)
-    (utf8Ok_lv t vs[i]) hcast
+    (by simpa [rootArr, Read.physical] using hphys hcols)
+    (utf8Ok_lvO o t vs[i]) hcast
 
 /-- **C04, through the real models** (`Trace.fromType`, `Build.toMarrow`, the reader model `Read.readAs` behind
 `readRecord` = `Deserializer::from_marrow` + item `i` + `T::deserialize`).
 
-For every record type `t = struct n fs` of the fragment `frag` (scalars, `()`, unit structs, Option, newtype structs,
-Vec, maps, structs with `rename` / `skip_serializing_if`; at least one field), all tracing options `O` without
-overwrites (any budget, every flag), every code variant `c` of the tracer, every batch `vs` of well-typed values:
+For every record type `t = struct n fs` of the grammar `fragE` (scalars, `()`, unit structs, Option, newtype structs,
+Vec, maps, tuples / tuple structs / arrays, structs with `rename` / `skip_serializing_if`, ENUMS with unit / newtype /
+tuple / struct variants — as a Union or, without data under `enums_without_data_as_strings`, as strings; at least one
+field), all tracing options `O` without overwrites (any budget, every flag), every code variant `c` of the tracer, every
+batch `vs` of well-typed values in scope (`inScopeO`: the documented exclusion `Option<enum → Union>` = `None`, which is
+exactly the driver's `noneAtUnion` — `C04_inScopeU_iff` —, and the string-enum defect `strOK`):
 
   if    `from_type` returns `fields`                        (`Trace.fromType c O (toTraceTy t) = ok fields`)
   and   serializing the batch against them returns `arrs`   (`toMarrow ext fields (vs.map (ser t)) = ok arrs`)
@@ -203,32 +271,32 @@ overwrites (any budget, every flag), every code variant `c` of the tracer, every
 `norm` is the documented collapse of `Some(None)` / `Some(())` to `None`, the identity elsewhere; `dvalOf` is the
 rendering of a typed value as the visitor calls of a typed read.
 
-Discharged here (were hypotheses H8 / H1 / H2 / Hinterp of the former composition over interfaces):
-  H8  `C04_fromType_mapping` (C08 + `fromTypeSpec_eq`);  H1  `Props.C01.C01_build_decode` + `Props.C03.C03_wf`, their
-  schema side conditions `SchemaOKF`, `coveredF` by `mappingFields_side` (shape of traced schemas), `noRaw`,
-  `SValOK` by `ser_ok` (shape of derived serializations);  H2  `Props.C02.read_typed_decode` with `new … = ok`
-  by `newFields_of_wf`, `utf8Ok` by `utf8Ok_lv`, `cast … = must …` by `cast_lv`;  Hinterp  `C04_interpRow_partial`.
+`hsafe` is C01's `Safe` as a DECIDABLE condition on the traced schema (`safeFs (mappingFields (viewOpts O) fs)`:
+`C04_safe_traced`); it is false for a dictionary-encoded `String` directly below an `Option<struct>` (C01's known exclusion
+`dict_placeholder_unstable`, witness `exSafeFalse` below) and true whenever no Dictionary column occurs
+(`C04_roundtrip_nodict_partial`).
 
-`_partial`, remaining hypotheses:
-  `hsafe`  C01's `Safe` on the fresh builder: holds for every traced schema without dictionary-encoded strings below a
-           nullable struct (C01's known exclusion `dict_placeholder_unstable`); not derived here from `O`;
-  `hphys`  `Read.physical`: dictionary value counts fit `i64` (true of any array in memory; Lean lists are unbounded);
-  `hext`   the external chrono parsers return values in range (`ExtOK`; irrelevant for traced schemas, asked by C03_wf);
-and the grammar: tuples / tuple structs / arrays and enums are not in `frag` (see `C04_interp_ser_partial`); the
-completeness direction (`toMarrow` never refuses a well-typed batch) is not proved. -/
+`_partial`, remaining hypotheses — exactly:
+  `hphys`  `Read.physical`: the value count of every Dictionary column fits `i64` (true of any array in memory; Lean lists
+           are unbounded and neither `Spec.wf` nor the builder invariant bounds the NUMBER of dictionary values);
+  `hext`   the external chrono parsers return values in range (`ExtOK`; no temporal column occurs in a traced schema, but
+           `Props.C03.C03_wf` asks for it unconditionally). -/
 theorem C04_roundtrip_partial (c : Trace.Code) (O : Trace.Options) (ext : Ext) (n : String) (fs : TFields) (vs : List Val)
     (fields : List Field) (arrs : List Arr)
-    (h0 : O.overwrites = []) (hfrag : frag (.struct n fs) = true) (hne : fs ≠ .nil)
+    (h0 : O.overwrites = []) (hfrag : fragE (.struct n fs) = true) (hne : fs ≠ .nil)
     (hwt : ∀ v ∈ vs, wt (.struct n fs) v = true)
+    (hsc : ∀ v ∈ vs, inScopeO (viewOpts O) (.struct n fs) v = true)
     (hext : Lemmas.C03.ExtOK ext)
-    (hsafe : ∀ root0, newRoot fields = .ok root0 → Safe root0)
+    (hsafe : safeFs (mappingFields (viewOpts O) fs) = true)
     (hphys : ∀ a ∈ arrs, Read.physical a = true)
     (hft : Trace.fromType c O (toTraceTy (.struct n fs)) = .ok fields)
     (htm : toMarrow ext fields (vs.map (ser (.struct n fs))) = .ok arrs) :
     ∀ (i : Nat) (hi : i < vs.length),
       readRecord (toTarget (.struct n fs)) fields arrs i = .ok (dvalOf (.struct n fs) (norm (.struct n fs) vs[i])) := by
   intro i hi
-  obtain ⟨hacc, hnew, hread⟩ := C04_roundtrip_core c O ext n fs vs fields arrs h0 hfrag hne hwt hext hsafe hphys hft htm
+  obtain ⟨hacc, hnew, hread⟩ := C04_roundtrip_core c O ext n fs vs fields arrs h0 hfrag hne hwt hsc hext
+    (C04_safe_traced (viewOpts O) fs fields (C04_fromType_fields c O h0 n fs fields hft) hsafe)
+    (fun _ => zip_physical fields arrs hphys) hft htm
   simp only [readRecord, hacc, bind, Except.bind]
   rw [hnew]
   simp only [Access.getIdx, ge_iff_le, Nat.not_le.mpr hi, if_false]
@@ -245,15 +313,18 @@ theorem mapM_ok_of_forall {α β} (f : α → R β) (g : α → β) : ∀ (l : L
 type's target) returns the whole batch, normalised, in order. -/
 theorem C04_roundtrip_bulk_partial (c : Trace.Code) (O : Trace.Options) (ext : Ext) (n : String) (fs : TFields) (vs : List Val)
     (fields : List Field) (arrs : List Arr)
-    (h0 : O.overwrites = []) (hfrag : frag (.struct n fs) = true) (hne : fs ≠ .nil)
+    (h0 : O.overwrites = []) (hfrag : fragE (.struct n fs) = true) (hne : fs ≠ .nil)
     (hwt : ∀ v ∈ vs, wt (.struct n fs) v = true)
+    (hsc : ∀ v ∈ vs, inScopeO (viewOpts O) (.struct n fs) v = true)
     (hext : Lemmas.C03.ExtOK ext)
-    (hsafe : ∀ root0, newRoot fields = .ok root0 → Safe root0)
+    (hsafe : safeFs (mappingFields (viewOpts O) fs) = true)
     (hphys : ∀ a ∈ arrs, Read.physical a = true)
     (hft : Trace.fromType c O (toTraceTy (.struct n fs)) = .ok fields)
     (htm : toMarrow ext fields (vs.map (ser (.struct n fs))) = .ok arrs) :
     readAll (toTarget (.struct n fs)) fields arrs = .ok (vs.map fun v => dvalOf (.struct n fs) (norm (.struct n fs) v)) := by
-  obtain ⟨hacc, hnew, hread⟩ := C04_roundtrip_core c O ext n fs vs fields arrs h0 hfrag hne hwt hext hsafe hphys hft htm
+  obtain ⟨hacc, hnew, hread⟩ := C04_roundtrip_core c O ext n fs vs fields arrs h0 hfrag hne hwt hsc hext
+    (C04_safe_traced (viewOpts O) fs fields (C04_fromType_fields c O h0 n fs fields hft) hsafe)
+    (fun _ => zip_physical fields arrs hphys) hft htm
   simp only [readAll, hacc, bind, Except.bind]
   rw [hnew]
   simp only [Props.C13.bulk_eq_items]
@@ -273,15 +344,16 @@ theorem C04_roundtrip_bulk_partial (c : Trace.Code) (O : Trace.Options) (ext : E
 (`plainOpt`: no `Option<Option<_>>`, `Option<()>`, …): `norm_eq_self` (whole grammar) removes the normalisation. -/
 theorem C04_roundtrip_identity_partial (c : Trace.Code) (O : Trace.Options) (ext : Ext) (n : String) (fs : TFields) (vs : List Val)
     (fields : List Field) (arrs : List Arr)
-    (h0 : O.overwrites = []) (hfrag : frag (.struct n fs) = true) (hplain : plainOpt (.struct n fs) = true) (hne : fs ≠ .nil)
+    (h0 : O.overwrites = []) (hfrag : fragE (.struct n fs) = true) (hplain : plainOpt (.struct n fs) = true) (hne : fs ≠ .nil)
     (hwt : ∀ v ∈ vs, wt (.struct n fs) v = true)
+    (hsc : ∀ v ∈ vs, inScopeO (viewOpts O) (.struct n fs) v = true)
     (hext : Lemmas.C03.ExtOK ext)
-    (hsafe : ∀ root0, newRoot fields = .ok root0 → Safe root0)
+    (hsafe : safeFs (mappingFields (viewOpts O) fs) = true)
     (hphys : ∀ a ∈ arrs, Read.physical a = true)
     (hft : Trace.fromType c O (toTraceTy (.struct n fs)) = .ok fields)
     (htm : toMarrow ext fields (vs.map (ser (.struct n fs))) = .ok arrs) :
     readAll (toTarget (.struct n fs)) fields arrs = .ok (vs.map (dvalOf (.struct n fs))) := by
-  rw [C04_roundtrip_bulk_partial c O ext n fs vs fields arrs h0 hfrag hne hwt hext hsafe hphys hft htm]
+  rw [C04_roundtrip_bulk_partial c O ext n fs vs fields arrs h0 hfrag hne hwt hsc hext hsafe hphys hft htm]
   congr 1
   apply List.map_congr_left
   intro v hv
@@ -292,25 +364,60 @@ grammar -/
 theorem C04_norm_eq_self (t : Ty) (v : Val) (hp : plainOpt t = true) (hw : wt t v = true) : norm t v = v :=
   norm_eq_self t v hp hw
 
-/-- `C04_roundtrip_partial` with C01's `Safe` hypothesis DERIVED from the shape of the traced schema, for tracing options
-without `string_dictionary_encoding` (then a traced schema of the fragment contains no Dictionary, `safe_of_traced`). -/
+/-- the schema-level `Safe` condition holds whenever the traced schema has no Dictionary column: neither
+`string_dictionary_encoding` nor `enums_without_data_as_strings` -/
+theorem C04_safeFs_nodict (o : TraceOpts) (hd : o.stringDictionaryEncoding = false) (he : o.enumsWithoutDataAsStrings = false)
+    (fs : TFields) : safeFs (mappingFields o fs) = true :=
+  (safeFs_of_noDict _ (mappingFields_noDictE o hd he fs)).1
+
+/-- `C04_roundtrip_partial` with C01's `Safe` hypothesis DERIVED, for tracing options that produce no Dictionary column
+(`string_dictionary_encoding` and `enums_without_data_as_strings` off) -/
 theorem C04_roundtrip_nodict_partial (c : Trace.Code) (O : Trace.Options) (ext : Ext) (n : String) (fs : TFields) (vs : List Val)
     (fields : List Field) (arrs : List Arr)
-    (h0 : O.overwrites = []) (hd : O.string_dictionary_encoding = false)
-    (hfrag : frag (.struct n fs) = true) (hne : fs ≠ .nil)
+    (h0 : O.overwrites = []) (hd : O.string_dictionary_encoding = false) (he : O.enums_without_data_as_strings = false)
+    (hfrag : fragE (.struct n fs) = true) (hne : fs ≠ .nil)
     (hwt : ∀ v ∈ vs, wt (.struct n fs) v = true)
+    (hsc : ∀ v ∈ vs, inScopeO (viewOpts O) (.struct n fs) v = true)
     (hext : Lemmas.C03.ExtOK ext)
     (hphys : ∀ a ∈ arrs, Read.physical a = true)
     (hft : Trace.fromType c O (toTraceTy (.struct n fs)) = .ok fields)
     (htm : toMarrow ext fields (vs.map (ser (.struct n fs))) = .ok arrs) :
     ∀ (i : Nat) (hi : i < vs.length),
-      readRecord (toTarget (.struct n fs)) fields arrs i = .ok (dvalOf (.struct n fs) (norm (.struct n fs) vs[i])) := by
-  have hn : noEnum (.struct n fs) = true := frag_noEnum _ hfrag
-  have hroot := C04_fromType_mapping c O h0 _ hn fields hft
-  have hfields : fields = (mappingFields (viewOpts O) fs).toList := by
-    simp [mappingRoot, mappingDT] at hroot; exact hroot.symm
-  exact C04_roundtrip_partial c O ext n fs vs fields arrs h0 hfrag hne hwt hext
-    (safe_of_traced (viewOpts O) hd fs (by simpa [noEnum] using hn) fields hfields) hphys hft htm
+      readRecord (toTarget (.struct n fs)) fields arrs i = .ok (dvalOf (.struct n fs) (norm (.struct n fs) vs[i])) :=
+  C04_roundtrip_partial c O ext n fs vs fields arrs h0 hfrag hne hwt hsc hext
+    (C04_safeFs_nodict (viewOpts O) hd he fs) hphys hft htm
+
+/-- the bulk round trip for traced schemas WITHOUT Dictionary columns (`string_dictionary_encoding` and
+`enums_without_data_as_strings` off): `Safe` AND `Read.physical` are derived (`C04_safeFs_nodict`, `physical_traced`: every
+well-formed array of a dictionary-free traced schema is physical); the only hypothesis left besides the documented ones is
+`hext` (discharged at the codec models in `C04_end_to_end_plain`) -/
+theorem C04_roundtrip_bulk_plain_partial (c : Trace.Code) (O : Trace.Options) (ext : Ext) (n : String) (fs : TFields) (vs : List Val)
+    (fields : List Field) (arrs : List Arr)
+    (h0 : O.overwrites = []) (hd : O.string_dictionary_encoding = false) (he : O.enums_without_data_as_strings = false)
+    (hfrag : fragE (.struct n fs) = true) (hne : fs ≠ .nil)
+    (hwt : ∀ v ∈ vs, wt (.struct n fs) v = true)
+    (hsc : ∀ v ∈ vs, inScopeO (viewOpts O) (.struct n fs) v = true)
+    (hext : Lemmas.C03.ExtOK ext)
+    (hft : Trace.fromType c O (toTraceTy (.struct n fs)) = .ok fields)
+    (htm : toMarrow ext fields (vs.map (ser (.struct n fs))) = .ok arrs) :
+    readAll (toTarget (.struct n fs)) fields arrs = .ok (vs.map fun v => dvalOf (.struct n fs) (norm (.struct n fs) v)) := by
+  obtain ⟨hacc, hnew, hread⟩ := C04_roundtrip_core c O ext n fs vs fields arrs h0 hfrag hne hwt hsc hext
+    (C04_safe_traced (viewOpts O) fs fields (C04_fromType_fields c O h0 n fs fields hft) (C04_safeFs_nodict (viewOpts O) hd he fs))
+    (physical_traced (viewOpts O) hd he fs _ _) hft htm
+  simp only [readAll, hacc, bind, Except.bind]
+  rw [hnew]
+  simp only [Props.C13.bulk_eq_items]
+  rw [mapM_ok_of_forall _ (fun i => dvalOf (.struct n fs) (norm (.struct n fs) (vs.getD i .unit))) (List.range vs.length)
+    (fun i hi => by
+      have hi' : i < vs.length := List.mem_range.mp hi
+      rw [hread i hi']
+      simp [List.getD_eq_getElem?_getD, List.getElem?_eq_getElem hi'])]
+  congr 1
+  apply List.ext_getElem
+  · simp
+  · intro i h1 h2
+    have hi' : i < vs.length := by simpa using h1
+    simp [List.getD_eq_getElem?_getD, List.getElem?_eq_getElem hi']
 
 /-! ### non-vacuity -/
 
@@ -371,8 +478,8 @@ example : exFields.length = 4 ∧ exArrs.length = 4 ∧ (∀ v ∈ exBatch, wt e
 
 example : ∀ (i : Nat) (hi : i < exBatch.length),
     readRecord (toTarget exFragRoot) exFields exArrs i = .ok (dvalOf exFragRoot (norm exFragRoot exBatch[i])) := by
-  exact C04_roundtrip_nodict_partial .fixed exO {} "Root" _ exBatch exFields exArrs rfl rfl (by decide +kernel) (by simp)
-    (by decide +kernel) exExtOK (by decide +kernel) exTrace exBuild
+  exact C04_roundtrip_nodict_partial .fixed exO {} "Root" _ exBatch exFields exArrs rfl rfl rfl (by decide +kernel) (by simp)
+    (by decide +kernel) (by decide +kernel) exExtOK (by decide +kernel) exTrace exBuild
 
 /-- what comes back for the first record: `a: Some(None)` has collapsed to `None` (the documented normalisation), the
 rest is the input -/
@@ -390,8 +497,7 @@ def tfieldsOf : Ty → TFields
 /-- non-vacuity of the bulk form: the whole batch comes back, normalised, in order -/
 example : readAll (toTarget exFragRoot) exFields exArrs = .ok (exBatch.map fun v => dvalOf exFragRoot (norm exFragRoot v)) :=
   C04_roundtrip_bulk_partial .fixed exO {} "Root" _ exBatch exFields exArrs rfl (by decide +kernel) (by simp)
-    (by decide +kernel) exExtOK
-    (safe_of_traced (viewOpts exO) rfl (tfieldsOf exFragRoot) (by decide +kernel) exFields (by decide +kernel)) (by decide +kernel) exTrace exBuild
+    (by decide +kernel) (by decide +kernel) exExtOK (by decide +kernel) (by decide +kernel) exTrace exBuild
 
 /-! non-vacuity of `C04_roundtrip_identity_partial` / `C04_norm_eq_self`: a record type without `Option` over a nullable
 position (an Option of a scalar, a tuple, a Vec of Option of struct): the batch comes back as it is -/
@@ -410,8 +516,7 @@ theorem exPlainBuild : toMarrow {} exPlainFields (exPlainBatch.map (ser exPlainR
 example : plainOpt exPlainRoot = true ∧ plainOpt exFragRoot = false ∧ exPlainFields.length = 3 := by decide +kernel
 example : readAll (toTarget exPlainRoot) exPlainFields exPlainArrs = .ok (exPlainBatch.map (dvalOf exPlainRoot)) :=
   C04_roundtrip_identity_partial .fixed exO {} "P" _ exPlainBatch exPlainFields exPlainArrs rfl (by decide +kernel)
-    (by decide +kernel) (by simp) (by decide +kernel) exExtOK
-    (safe_of_traced (viewOpts exO) rfl (tfieldsOf exPlainRoot) (by decide +kernel) exPlainFields (by decide +kernel)) (by decide +kernel)
+    (by decide +kernel) (by simp) (by decide +kernel) (by decide +kernel) exExtOK (by decide +kernel) (by decide +kernel)
     exPlainTrace exPlainBuild
 
 example : wt exRoot exVal1 = true ∧ wt exRoot exVal2 = true := by decide +kernel
@@ -419,21 +524,62 @@ example : wt exRoot exVal1 = true ∧ wt exRoot exVal2 = true := by decide +kern
 example : norm exRoot exVal1 ≠ exVal1 ∧ norm exRoot exVal2 = exVal2 := by decide +kernel
 example : unser exRoot (lv exRoot exVal1) = some (norm exRoot exVal1) := by decide +kernel
 example : unser exRoot (lv exRoot exVal2) = some exVal2 := by decide +kernel
-/-- non-vacuity of `C04_interp_ser_partial` / `C04_interpRow_partial` with enums and tuples: `exRoot` (an enum with all
-four variant kinds, a map with tuple values) is in `fragE`, both values are in scope, the traced root schema exists, and
-the theorem gives the logical value of the serialized record under the *real* `Spec.interpRow` -/
-example : fragE exRoot = true ∧ inScope exOpts exRoot exVal1 = true ∧ inScope exOpts exRoot exVal2 = true ∧
+/-- non-vacuity of `C04_interp_ser` / `C04_interpRow` with enums and tuples: `exRoot` (an enum with all four variant
+kinds, a map with tuple values) is in `fragE`, both values are in scope, the traced root schema exists, and the theorem
+gives the logical value of the serialized record under the *real* `Spec.interpRow` -/
+example : fragE exRoot = true ∧ inScopeO exOpts exRoot exVal1 = true ∧ inScopeO exOpts exRoot exVal2 = true ∧
     (mappingRoot exOpts exRoot).isSome = true := by decide +kernel
 example (fields : List Field) (h : mappingRoot exOpts exRoot = some fields) :
-    interpRow {} fields (ser exRoot exVal1) = .ok (lv exRoot exVal1) ∧ interpRow {} fields (ser exRoot exVal2) = .ok (lv exRoot exVal2) :=
-  ⟨C04_interpRow_partial {} exOpts "Root" _ exVal1 fields (by decide +kernel) (by decide +kernel) (by decide +kernel) h,
-   C04_interpRow_partial {} exOpts "Root" _ exVal2 fields (by decide +kernel) (by decide +kernel) (by decide +kernel) h⟩
+    interpRow {} fields (ser exRoot exVal1) = .ok (lvO exOpts exRoot exVal1) ∧
+    interpRow {} fields (ser exRoot exVal2) = .ok (lvO exOpts exRoot exVal2) :=
+  ⟨C04_interpRow {} exOpts "Root" _ exVal1 fields (by decide +kernel) (by decide +kernel) (by decide +kernel) h,
+   C04_interpRow {} exOpts "Root" _ exVal2 fields (by decide +kernel) (by decide +kernel) (by decide +kernel) h⟩
 /-- the exclusion is needed: `Option<enum>` = `None` is out of scope, and the documented mapping has no value for it
 (unions cannot hold nulls) -/
-example : inScope exOpts (.option exEnum) .none = false ∧
+example : inScopeO exOpts (.option exEnum) .none = false ∧
     (interpDT {} (mappingDT exOpts (.option exEnum)).1 true (mappingDT exOpts (.option exEnum)).2.2 (ser (.option exEnum) .none)).isOk = false := by
   decide +kernel
 /-- different values have different logical content -/
 example : lv exRoot exVal1 ≠ lv exRoot exVal2 := by decide +kernel
+
+/-! ### non-vacuity WITH ENUMS: the round trip of `exRoot` (an enum with unit / newtype / tuple / struct variants as a
+Union, a map with tuple values, nested Options) traced under `allow_null_fields` (the unit variant is a Null child) -/
+
+def exEO : Trace.Options := { map_as_struct := false, allow_null_fields := true }
+def exEBatch : List Val := [exVal1, exVal2]
+def exEFields : List Field := match Trace.fromType .fixed exEO (toTraceTy exRoot) with | .ok fs => fs | .error _ => []
+def exEArrs : List Arr := match toMarrow {} exEFields (exEBatch.map (ser exRoot)) with | .ok a => a | .error _ => []
+theorem exETrace : Trace.fromType .fixed exEO (toTraceTy exRoot) = .ok exEFields := by decide +kernel
+theorem exEBuild : toMarrow {} exEFields (exEBatch.map (ser exRoot)) = .ok exEArrs := by decide +kernel
+example : exEFields.length = 5 ∧ exEArrs.length = 5 := by decide +kernel
+
+example : ∀ (i : Nat) (hi : i < exEBatch.length),
+    readRecord (toTarget exRoot) exEFields exEArrs i = .ok (dvalOf exRoot (norm exRoot exEBatch[i])) :=
+  C04_roundtrip_nodict_partial .fixed exEO {} "Root" _ exEBatch exEFields exEArrs rfl rfl rfl (by decide +kernel) (by simp)
+    (by decide +kernel) (by decide +kernel) exExtOK (by decide +kernel) exETrace exEBuild
+
+/-! a data-less enum stored as STRINGS (`enums_without_data_as_strings`): `Option<Color>` = `None` is IN scope there (the
+column is a nullable Dictionary, not a Union), and the values come back -/
+
+def exColor : Ty := .enum "Color" (.cons "Red" .unit (.cons "Green" .unit .nil))
+def exSRoot : Ty := .struct "S" (.cons "c" false exColor (.cons "oc" false (.option exColor) (.cons "k" false (.prim (.int .i32)) .nil)))
+def exSO : Trace.Options := { enums_without_data_as_strings := true }
+def exSBatch : List Val :=
+  [.struct (.cons (.variant 1 .nil) (.cons .none (.cons (.int 1) .nil))),
+   .struct (.cons (.variant 0 .nil) (.cons (.some (.variant 1 .nil)) (.cons (.int 2) .nil)))]
+def exSFields : List Field := match Trace.fromType .fixed exSO (toTraceTy exSRoot) with | .ok fs => fs | .error _ => []
+def exSArrs : List Arr := match toMarrow {} exSFields (exSBatch.map (ser exSRoot)) with | .ok a => a | .error _ => []
+theorem exSTrace : Trace.fromType .fixed exSO (toTraceTy exSRoot) = .ok exSFields := by decide +kernel
+theorem exSBuild : toMarrow {} exSFields (exSBatch.map (ser exSRoot)) = .ok exSArrs := by decide +kernel
+example : exSFields = [.mk "c" (.dictionary .uint32 .largeUtf8) false [], .mk "oc" (.dictionary .uint32 .largeUtf8) true [],
+    .mk "k" .int32 false []] := by decide +kernel
+/-- the option-dependent logical value is the variant NAME there; the Union form `lv` differs -/
+example : lvO (viewOpts exSO) exColor (.variant 1 .nil) = .str "Green".toUTF8.toList ∧
+    lv exColor (.variant 1 .nil) = .union 1 .null := by decide +kernel
+
+example : ∀ (i : Nat) (hi : i < exSBatch.length),
+    readRecord (toTarget exSRoot) exSFields exSArrs i = .ok (dvalOf exSRoot (norm exSRoot exSBatch[i])) :=
+  C04_roundtrip_partial .fixed exSO {} "S" _ exSBatch exSFields exSArrs rfl (by decide +kernel) (by simp)
+    (by decide +kernel) (by decide +kernel) exExtOK (by decide +kernel) (by decide +kernel) exSTrace exSBuild
 
 end SaModel.Props.C04
